@@ -37,6 +37,11 @@ def ir_effects(ctx):
             continue
         e = eff[n]
         globs = sorted(g for g in f.globals)
+        # a function returning an aggregate (complex<long double>) has a hidden return slot as its first parameter:
+        # writing the result there is not a memory effect; the user-visible parameters start after it
+        s0 = 1 if f.sret == 0 else 0
+        SEED = {('arg', s0)}
+        OUTS = SEED | ({('arg', 0)} if s0 else set())
         if d.startswith('Spectra::next_long_rand('):
             n_step += 1
             ok = e.is_pure_arith() and not globs
@@ -50,14 +55,14 @@ def ir_effects(ctx):
             callees = set(dm.get(c, c or '?') for c, _ in e.calls)
             okc = all(c.startswith('Spectra::next_long_rand(') or (c.startswith('Spectra::RandomScalar<') and '::run(' in c) or
                       c.startswith('std::complex<') for c in callees)
-            ok = rd[n] <= {('arg', 0)} and wr[n] <= {('arg', 0)} and okc and not globs and not e.escapes and not e.other
+            ok = rd[n] <= SEED and wr[n] <= OUTS and okc and not globs and not e.escapes and not e.other
             ctx.check(ok, rule, 'RandomScalar::run', d,
                       'reads/writes only through the seed reference; callees %s' % sorted(c.split('(')[0] for c in callees) if ok else
                       'draw has other effects: reads %s writes %s callees %s globals %s escapes %s other %s' %
                       (sorted(rd[n]), sorted(wr[n]), sorted(callees), globs, e.escapes, e.other))
         elif d.startswith('Spectra::SimpleRandom<') and d.endswith('::random()'):
             n_rand += 1
-            ok = rd[n] <= {('arg', 0)} and wr[n] <= {('arg', 0)} and not globs and not e.escapes
+            ok = rd[n] <= SEED and wr[n] <= OUTS and not globs and not e.escapes
             ctx.check(ok, rule, 'SimpleRandom::random', d, 'touches only its own object' if ok else
                       'reads %s writes %s globals %s' % (sorted(rd[n]), sorted(wr[n]), globs))
         elif d.startswith('Spectra::SimpleRandom<') and '::SimpleRandom(unsigned long)' in d:
